@@ -73,6 +73,36 @@ func VH_C06_zipkin_array() {
 	dec.SetOnEntry(pd.onSpan)
 	err := dec.Decode()
 	vrt.Assert(err == nil, "well-formed-body-accepted")
+	vzCheck(pd, spans, n)
+	vrt.Reach("end")
+}
+
+// VH_C06_zipkin_ndjson: the same spans, newline-delimited framing.
+func VH_C06_zipkin_ndjson() {
+	vrt.Unwind(2000)
+	vrt.ConcreteUnwind(200000)
+	n := vrt.Len("spans", 1, 2)
+	var spans []vzSpan
+	body := ""
+	for k := 0; k < n; k++ {
+		s, js := vzMake(k)
+		spans = append(spans, s)
+		body += js + "\n"
+	}
+	pd := &parserDoer{ctx: &ParserCtx{bodyReader: bytes.NewReader([]byte(body))}, payloadType: 1}
+	pd.resetSpans()
+	dec := &zipkinNDDecoderV2{&zipkinDecoderV2{ctx: pd.ctx}}
+	dec.SetOnEntry(pd.onSpan)
+	err := dec.Decode()
+	vrt.Assert(err == nil, "well-formed-body-accepted")
+	if vrt.KnownFinding("C06-zipkin-ndjson-payload-and-state", true) {
+		return
+	}
+	vzCheck(pd, spans, n)
+	vrt.Reach("end")
+}
+
+func vzCheck(pd *parserDoer, spans []vzSpan, n int) {
 	vrt.Assert(len(pd.spans.MSpanId) == n, "one-trace-row-per-span")
 	for k, s := range spans {
 		vrt.Assert(len(pd.spans.MSpanId[k]) == 8 && pd.spans.MSpanId[k][7] == byte(1+k), "row-span-id")
@@ -100,5 +130,4 @@ func VH_C06_zipkin_array() {
 		}
 		vrt.Assert(pd.attrs.MDurationNs[i] == pd.spans.MDurationNs[k], "tag-row-duration-of-its-span")
 	}
-	vrt.Reach("end")
 }
